@@ -21,6 +21,23 @@ import numpy as np
 from .TransformationError import TransformationError
 
 
+def special_quadric_to_general(sq_params):
+    '''Return the parameters of the general quadric (GQ form) equivalent to
+    the axis-parallel quadric described by `sq_params` (SQ form).
+
+    :param list(float) sq_params: the 10 parameters of the SQ card
+    :returns: the 10 parameters of the equivalent GQ card
+    :rtype: list(float)
+    '''
+    asq, bsq, csq, dsq, esq, fsq, gsq, xsq, ysq, zsq = sq_params
+    return [asq, bsq, csq, 0.0, 0.0, 0.0,
+            2.0 * dsq - 2.0 * asq * xsq,
+            2.0 * esq - 2.0 * bsq * ysq,
+            2.0 * fsq - 2.0 * csq * zsq,
+            asq * xsq**2 + bsq * ysq**2 + csq * zsq**2
+            - 2.0 * (dsq * xsq + esq * ysq + fsq * zsq) + gsq]
+
+
 def transformation_quad(params, trans):
     '''Apply the `trans` affine transformation to the quadric
     described by the `params` parameters.
